@@ -55,3 +55,12 @@ func At(point string) {
 		f(point)
 	}
 }
+
+// AtHVFn, when set, is called at yield points that belong to a (height, view) pair and may block.
+var AtHVFn func(point string, height, view uint64)
+
+func AtHV(point string, height, view uint64) {
+	if f := AtHVFn; f != nil {
+		f(point, height, view)
+	}
+}
